@@ -9,7 +9,8 @@ R32.1 const_relations in parol::analysis::k_tuple (all values are read from the 
         MAX_BITS before any use,
       * EPS == TerminalIndex::MAX, INVALID == MAX-1, and the built-in token constants re-declared in k_tuple equal
         the runtime's constants of the same name; INVALID equals the runtime's INVALID_TOKEN.
-All shifting arithmetic in k_concat/of/get/set (values x positions) is NOT decided.
+R32.2 get/set agreement: both address bit offset i * bits() with the element mask mask() (see get_set_agree).
+The shifting arithmetic of k_concat / of (values x positions) is NOT decided.
 """
 from ..dataflow import operand_term, raw_operand_place
 from ..facts import AnchorMissing
@@ -135,3 +136,85 @@ def check(ctx):
     ctx.check((eps & ((1 << max_bits) - 1)) == (1 << max_bits) - 1, "R32.1", "eps-is-all-ones-in-every-width",
               "EPS truncated to any width is the all-ones pattern (the reason new() reserves max_terminal_index + 1)",
               "EPS truncated to the element width is not all ones", nontrivial=False)
+    get_set_agree(ctx, facts)
+
+
+# ------------------------------------------------------------------------------------------------------------------ R32.2
+def _norm(body, t, depth=10):
+    """value term normalised over named locals: ('param', name) | ('call', callee, [args]) | (op, a, b) | ('const', v) | ..."""
+    from ..dataflow import single_def
+    from .c31 import _sh, _sh_place
+    if depth <= 0:
+        return ("deep",)
+    k = t[0]
+    if k == "const":
+        return ("const", t[1])
+    if k == "call":
+        c = t[1]
+        return ("call", (c.path or "?").split("::")[-1], tuple(_norm(body, _sh(body, a), depth - 1) for a in c.args))
+    if k == "bin":
+        return (t[1].replace("WithOverflow", "").replace("Unchecked", ""), _norm(body, t[2], depth - 1), _norm(body, t[3], depth - 1))
+    if k == "var":
+        l = t[2]
+        if 1 <= l <= body.nargs:
+            return ("param", t[1])
+        d = single_def(body, l)
+        if d is None:
+            return ("var", t[1])
+        if d[0] == "call":
+            c = d[3]
+            return ("call", (c.path or "?").split("::")[-1], tuple(_norm(body, _sh(body, a), depth - 1) for a in c.args))
+        rv = d[3]
+        if rv[0] == "use":
+            return _norm(body, _sh_unnamed(body, rv[1]), depth - 1)
+        if rv[0] == "cast":
+            return _norm(body, _sh_unnamed(body, rv[2]), depth - 1)
+        if rv[0] == "bin":
+            return (rv[1].replace("WithOverflow", "").replace("Unchecked", ""), _norm(body, _sh(body, rv[2]), depth - 1),
+                    _norm(body, _sh(body, rv[3]), depth - 1))
+        if rv[0] == "un":
+            return (rv[1], _norm(body, _sh(body, rv[2]), depth - 1))
+        return ("var", t[1])
+    return (k,)
+
+
+def _sh_unnamed(body, op):
+    from .c31 import _sh
+    return _sh(body, op)
+
+
+def get_set_agree(ctx, facts):
+    """R32.2 Terminals::get and Terminals::set address the same bits: get reads (self.t >> i*bits()) & mask(); set writes
+    (t & mask()) << i*bits() after clearing !(mask() << i*bits()); the three shift amounts and the masks are the same terms
+    (position parameter times bits(), mask()) - a getter and a setter that disagree on position or width make the packed
+    value stop behaving like a sequence."""
+    from .c31 import _sh
+    T = "parol::analysis::k_tuple::Terminals::"
+    g, s = facts.body(T + "get"), facts.body(T + "set")
+    shifts = {"get": [], "set": []}
+    masks = {"get": [], "set": []}
+    for name, b in (("get", g), ("set", s)):
+        for bi, si, p, rv, line, mac in b.assigns():
+            if rv[0] == "bin" and rv[1].replace("Unchecked", "") in ("Shr", "Shl"):
+                shifts[name].append((rv[1], _norm(b, _sh(b, rv[3])), _norm(b, _sh(b, rv[2])), line))
+            if rv[0] == "bin" and rv[1] == "BitAnd":
+                for o in (rv[2], rv[3]):
+                    n = _norm(b, _sh(b, o))
+                    if n[0] == "call" and n[1] == "mask":
+                        masks[name].append((n, line))
+    want = ("Mul", ("param", "i"), ("call", "bits", (("param", "self"),)))
+    def okshift(x):
+        return x == want or (x[0] == "Mul" and {x[1], x[2]} == {want[1], want[2]})
+    gs = [x for x in shifts["get"]]
+    ss = [x for x in shifts["set"]]
+    ctx.check(len(gs) == 1 and gs[0][0].startswith("Shr") and okshift(gs[0][1]), "R32.2", "get|shift-is-i-times-bits",
+              "get shifts right by i * bits()", "get does not read at bit offset i * bits(): %s" % (gs,), where(g))
+    ctx.check(len(ss) == 2 and all(x[0].startswith("Shl") and okshift(x[1]) for x in ss), "R32.2", "set|shifts-are-i-times-bits",
+              "set shifts value and clearing mask left by i * bits()",
+              "set does not write / clear at bit offset i * bits(): %s" % (ss,), where(s))
+    shifted = sorted(str(x[2]) for x in ss)
+    ctx.check(bool(masks["get"]) and bool(masks["set"]) and
+              any(x[2] == ("call", "mask", (("param", "self"),)) for x in ss), "R32.2", "get-set|same-mask",
+              "get masks with mask(); set masks the value with mask() and clears mask() << i*bits()",
+              "getter and setter do not use the same element mask (get: %s, set: %s / shifted %s)"
+              % (masks["get"], masks["set"], shifted), where(s))
